@@ -150,6 +150,8 @@ def snapshot(x):
     """Deep structural snapshot incl. container identity-free class/order."""
     if is_container(x):
         return (type(x).__name__, tuple((k, snapshot(v)) for k, v in list(x)))
+    if type(x) is dict:
+        return ("dict", tuple((k, snapshot(v)) for k, v in x.items()))
     if isinstance(x, list):
         return ("list", tuple(snapshot(v) for v in x))
     if isinstance(x, (set, frozenset)):
